@@ -31,12 +31,7 @@ CHECKS = {
              "GetSafe / Keys, with their closure bodies kept (unit replies), answer - when not refused - with the store's answer for the request's key in the database the session "
              "selected, resp. with the comma-joined listing of that database for the request's pattern. "
              "Right level because the property is a statement about one data structure; wrong tool for the parser/dispatcher, which is left as glue.",
-        level_note="Sequential semantics only (locks elided by extraction rule R2). Trusted: vstd HashMap/String specs, Display for Value prints its value, "
-                   "uninterpreted i32<->text with parse(print(n))==Some(n), notify_watchers spec, derive(Clone) gives an equal value. "
-                   "Unit listing: the iterator adapters iter/filter/map/collect and Vec::sort are trusted shims (the closures handed to them are the real ones and are "
-                   "verified against their own contracts), the fn pointers of get_function_by_pattern are defunctionalised, String order is uninterpreted. "
-                   "NOT decided: parser glue; the closure bodies of the WRITING arms (they mutate through a shared &Database, which a Verus closure cannot express).",
-    ),
+        level_note='Sequential semantics only (locks elided by extraction rule R2). Trusted: vstd HashMap/String specs, Display for Value prints its value, uninterpreted i32<->text with parse(print(n))==Some(n), derive(Clone) gives an equal value. Unit listing: the iterator adapters iter/filter/map/collect and Vec::sort are trusted shims (the closures handed to them are the real ones and are verified against their own contracts), the fn pointers of get_function_by_pattern are defunctionalised, String order is uninterpreted. The closures of the writing arms (set / remove / increment) are lifted to functions and verified (unit consensus); process_request itself is under contract (unit outbox: the command that runs is the parse of the received line minus only its line feeds). NOT decided: the command-word table of Request::parse.'),
     "C02": dict(
         engine="verus-units", design_ref="DESIGN.md §5 C02", technique="deductive verification (Verus/Z3) of function contracts on extracted real code",
         text="Unbounded proof of the sequential half: Change::next_version equals the five-way version rule; Database::set_value refuses exactly when the requested "
@@ -49,9 +44,7 @@ CHECKS = {
         engine="verus-units", design_ref="DESIGN.md §5 C03", technique="deductive verification (Verus/Z3) of function contracts on extracted real code",
         text="Emission clause only: every accepted set/set-safe/increment hands exactly one record carrying the committed value (and version) to the watcher list of "
              "that key, every accepted remove exactly one removed record, a refused write none - proved for all states and arguments against an uninterpreted send log.",
-        level_note="notify_watchers and the removed-loop are TRUSTED to append exactly one record (their try_send loops are not verified). Subscription windows, "
-                   "watch/unwatch/disconnect races, delivery on full channels and 'ends up current' are NOT decided.",
-    ),
+        level_note="The try_send loops of notify_watchers, of the removed-notification in remove_value and of the arbiter notices ARE verified against a per-channel model (unit delivery: every registration of the key is handed its lines once, nobody else anything); in the store / consensus units those functions appear as trusted externals with a database-level log. Trusted there: clones of a Sender are handles of one channel; whether a full channel takes the line is not modelled. Subscription races, 'ends up current' under concurrent writers are NOT decided."),
     "C08": dict(
         engine="verus-units+kani", design_ref="DESIGN.md §5 C08", technique="deductive verification (Verus/Z3) of guard contracts with closure preconditions; Kani/CBMC harness for the listing filter",
         text="Unbounded proof of the guards: in apply_if_safe_access / apply_to_database_name_if_has_permission / has_permission the guarded operation (a closure) "
@@ -62,9 +55,7 @@ CHECKS = {
              "Database::list_keys (filter closure verbatim) and filter_system_keys list a $$ key only for a caller entitled to system keys, and the real Keys arm (closure body "
              "kept) asks for system keys exactly for an administrator session. Bounded Kani "
              "harness (thorough tier, not counted): filter_system_keys on 3-byte keys.",
-        level_note="Dispatcher arms that bypass the guard (Resolve, Arbiter, rp) are NOT covered and the check does not claim noninterference for them. "
-                   "str::starts_with is a trusted prefix test. Sequential semantics. The Kani harness is bounded (3-byte keys) and is not counted as proved.",
-    ),
+        level_note='Noninterference is reduced to: the guarded closure is not callable and the reply is an error; a refused login leaves the whole selection unchanged (unit sessions); a refused command leaves nothing on the replication channel (unit outbox). The rp arm is NOT covered. str::starts_with is a trusted prefix test. Sequential semantics. The Kani harness is bounded (3-byte keys) and is not counted as proved.'),
     "C09": dict(
         engine="verus-units+kani", design_ref="DESIGN.md §5 C09", technique="deductive verification (Verus/Z3) of guard contracts with closure preconditions; complete loop-free Kani harnesses",
         text="Unbounded proof: apply_if_auth runs its operation only for an authenticated administrator session and otherwise answers with an error; "
@@ -79,10 +70,7 @@ CHECKS = {
              "matching code (unit permissions: Permission::permissions_from_str, Permission::from, PermissionKind::from(char), the two nested `.any(..)` closures of "
              "has_permission verbatim): a list grants (key, kind) iff one of its `|`-separated statements lists the kind among its letters and one of its comma-separated "
              "patterns matches the key, each pattern with its own prefix* / *suffix / contains matcher. Complete Kani harnesses: apply_if_auth (call counter), PermissionKind letters.",
-        level_note="std's str::split / splitn are uninterpreted (the pieces they yield), the iterator adapters are trusted shims over the closures' contracts (R11), fn pointers "
-                   "are defunctionalised (R12). The rp arm and what a closure does once allowed are NOT verified; mid-session changes of a permission list are covered by the "
-                   "bounded sweep (family permchange) - has_permission reads the stored list on every call, which is what its contract states.",
-    ),
+        level_note="std's str::split / splitn are uninterpreted (the pieces they yield), the iterator adapters are trusted shims over the closures' contracts (R11), fn pointers are defunctionalised (R12). The rp arm and the closures of the remaining administrative arms (create-user, set-permissions, snapshot, join / leave, cluster-state, debug) are NOT verified; mid-session changes of a permission list are covered by the bounded sweep (family permchange) - has_permission reads the stored list on every call, which is what its contract states."),
     "C12": dict(
         engine="verus-units+kani", design_ref="DESIGN.md §5 C12", technique="deductive verification (Verus/Z3) with loop invariants over an abstract file model; complete Kani harness for the op-kind codec",
         text="Unbounded proof over all logs (any number of 25-byte records with non-decreasing, possibly repeating timestamps) and all starting timestamps: "
@@ -93,9 +81,7 @@ CHECKS = {
              "first, then the live file; loop invariant `folded`) returns, for any number of files, every pair with a record at or after the timestamp in any file, labelled "
              "with its record in the newest file that mentions it - with the files in time order that is its most recent record (lemma_most_recent_wins). "
              "Kani: ReplicateOpp to_u8/from over all 256 bytes.",
-        level_note="Trusted file and directory model (see evidence). Rotation itself (rename in get_log_file_append_mode) and remove_old_db_files, termination of the search "
-                   "loop, and the writer-side facts 'timestamps never go back', 'whole records', 'files in time order' (preconditions / lemma hypothesis) are NOT decided.",
-    ),
+        level_note="Trusted file and directory model (see evidence). The writer across a roll-over IS verified (try_write_op_log: an accepted record is the last record of the live stream). Rotation itself (rename in get_log_file_append_mode) and remove_old_db_files are covered by the bounded family logroll only (through a guarded hook); termination of the search loop and the writer-side facts 'timestamps never go back', 'files in time order' (preconditions / lemma hypothesis) are NOT decided."),
     "C13": dict(
         engine="verus-units", design_ref="DESIGN.md §5 C13", technique="deductive verification (Verus/Z3) of function contracts on extracted real code",
         text="Single-call clauses, single node, for all states: the Arbiter branch of try_resolve_conflict_response either refuses and changes nothing (no arbiter "
@@ -105,9 +91,7 @@ CHECKS = {
              "unit listing: every notice is looked at, not just the newest). register_arbiter (real loop, with invariants): the registering client becomes a watcher of "
              "$conflicts and is sent exactly the unanswered notices, once each, in queue order; answered notices are dropped; nothing else in the store moves. "
              "set_key_value / apply_change_to_db_try_fix_conflicts carry the clause 'a refused write never changes the key' to the client-facing entry point.",
-        level_note="Trusted: the iterator adapters behind the $conflicts_ listing (R11 shims; closures verified), the arbiter send loop, format! texts (uninterpreted with axioms). "
-                   "NOT decided: queue order across several writes, arbiter disconnects, multi-node resolve path, replicas.",
-    ),
+        level_note='Trusted: the iterator adapters behind the $conflicts_ listing (R11 shims; closures verified), format! texts (uninterpreted with axioms). The arbiter send loop IS verified (unit delivery: every registered arbiter is told once); the loader keeps keys in conflict (unit snapshot); a resolved value leaves the node as the line of an ordinary write (unit outbox). NOT decided: queue order across several writes, arbiter disconnects, the multi-node resolve path.'),
     "C16": dict(
         engine="verus-units", design_ref="DESIGN.md §5 C16", technique="deductive verification (Verus/Z3) of function contracts and representation invariants on extracted real code",
         text="For all states. Identifier freshness: generate_key_id returns the existing id of a known key (maps unchanged) or a fresh id for a new "
@@ -142,10 +126,7 @@ CHECKS = {
              "obligation and a witness scenario of the bounded sweep (which feeds the real lines through the real parser of an empty node and compares datasets): the lines "
              "lack the version field the receiver parses (values and versions do not arrive; full and incremental emitter), removed keys are sent as live writes, and the conflict strategy of a database "
              "is not sent. The existing unit tests pin the emitted strings, so none of them can be repaired without editing tests.",
-        level_note="Only the two emitters are under contract. The join handshake, the receiving handlers and writes "
-                   "accepted during the synchronisation are NOT decided. A known finding suppresses exactly its own obligation (or its own sweep scenario): any other "
-                   "failing clause or scenario is still a VIOLATION.",
-    ),
+        level_note='Under contract: the two resynchronisation emitters (unit sync, with four open known findings), the live emitter and its line builders (unit outbox), the receiving parsers of replicate / replicate-remove (unit parser), the multi-file catch-up query (unit oplog). The join handshake, the CreateDb handler and writes accepted during the synchronisation are NOT decided. A known finding suppresses exactly its own obligation (or its own sweep scenario): any other failing clause or scenario is still a VIOLATION.'),
     "C06": dict(
         engine="verus-units", design_ref="DESIGN.md §10 'C06 contract notes'", technique="deductive verification (Verus/Z3) of function contracts, loop invariants and an invariant over snapshot histories on the extracted real disk writer, loader and store operations, over an abstract disk image",
         text="For every database state, every key/value length and both snapshot modes: (1) the REAL NodeDrive::storage_data_disk produces exactly the per-state write "
@@ -172,10 +153,7 @@ CHECKS = {
              "Primary and tells the supervisor. The member table of ONE node (unit members: the REAL add_cluster_member with its demotion loop, promote_member, "
              "remove_cluster_member) never names two primaries: adding or promoting a primary turns every other member into a secondary. "
              "The bounded native sweep runs the same calls on real Databases objects (1-2 members, 3 roles, boundary start times).",
-        level_note="NOT decided: 'exactly one primary, the oldest, and all agree' over 2-3 nodes and all message interleavings - a multi-process invariant no single "
-                   "call's contract states; the SetPrimary/Join/Leave arms and the supervisor's set-primary broadcast. Sequential model with interference only at "
-                   "thread::sleep. A change that breaks the protocol without changing what one call does is not detected.",
-    ),
+        level_note="NOT decided: 'exactly one primary, the oldest, and all agree' over 2-3 nodes and all message interleavings - a multi-process invariant no single call's contract states; the Join / Leave arms and the supervisor's set-primary broadcast. Decided per call: role comparison, candidacy, termination, outcome of one election call, no claim without a wait (explicit clock), the link tag set by set-primary / set-secoundary, the member table. Sequential model with interference only at thread::sleep. A change that breaks the protocol without changing what one call does is not detected."),
     "C20": dict(
         engine="verus-units", design_ref="DESIGN.md §5 C20 (claimed in §10 after fix a6540e8)", technique="deductive verification (Verus/Z3) of a function contract with loop invariants on the extracted real process_commands, over a FIFO model of the session's channel with a ghost call history",
         text="For every body (any number of commands, any blanks, any trailing ';') and whatever each command returns or queues: the REAL "
@@ -195,8 +173,7 @@ CHECKS = {
              "try_resolve_conflict_response never refuse a write (below i32::MAX), the reply names the value actually stored, the incoming value wins exactly when "
              "its op id is newer, the stored version never decreases and strictly grows when the value is replaced, watchers get exactly one record iff the "
              "stored value was replaced, and no other key is touched.",
-        level_note="Two concurrent clients and replica agreement are NOT decided. The inner re-application goes through set_value's contract (modular).",
-    ),
+        level_note="Two concurrent clients are NOT decided. The inner re-application goes through set_value's contract (modular). The `replicate` handler applies a peer's write through the same resolving operation on every node role (op_replicate_set); replica agreement over two processes is covered by the bounded family replica only."),
     "C15": dict(
         engine="verus-units", design_ref="DESIGN.md §5 C15", technique="deductive verification (Verus/Z3) of function contracts and a state invariant on extracted real code",
         text="Unbounded proof over all states: ReplicationMessage::{new,ack,replicated,is_full_acknowledged,get_copy} and "
@@ -204,9 +181,7 @@ CHECKS = {
              "that have not acknowledged' and 'an operation is in the pending map exactly while some target node has not acknowledged'; acknowledgements count once per "
              "node, duplicates / unknown operations / foreign nodes change neither the counters nor which operations are pending. Because the invariant is "
              "required and re-established by every operation, it holds after every finite sequence of register/ack events (induction over the contracts).",
-        level_note="Sequentialised atomics and mutex (R2/R3). Trusted: HashMap::get_mut specification, fetch_add as wrapping add, vstd HashMap/Set specs. "
-                   "Call-site condition 'an op is sent to a node at most once while un-acked' is an unproved precondition. The dispatcher's ack / rp handlers are glue.",
-    ),
+        level_note="Sequentialised atomics and mutex (R2/R3). Trusted: HashMap::get_mut specification, fetch_add as wrapping add, vstd HashMap/Set specs. The call-site condition of register_pending_opp is proved at its two call sites (the fan-out functions register an operation for exactly the members they hand it to); the ack handler's closure is verified. Assumed: an operation id is fanned out once. The rp handler and the replication thread's role dispatch are glue (bounded family logthread)."),
     "C10": dict(
         engine="verus-units", design_ref="DESIGN.md §5 C10", technique="deductive verification (Verus/Z3): absence of overflow / unwrap-on-None-or-Err / out-of-bounds in extracted real code, for all inputs",
         text="Partial but unbounded: every function under contract in the store, consensus, security, ids, oplog and pending units is proved free of arithmetic "
